@@ -180,9 +180,9 @@ theorem getD_candMap (R : Mat3) (cand : List (Nat × Int × V3 ℝ × ℝ)) (i :
   | none => simp [candMap, rot_vzero]
   | some v => rfl
 
-theorem pickZ_rot {R : Mat3} (hR : Orth R) (cand : List (Nat × Int × V3 ℝ × ℝ)) (y : V3 ℝ) :
-    pickZ (cand.map (candMap R)) (rot R y) = (pickZ cand y).map (rot R) := by
-  unfold pickZ
+theorem pickZRaw_rot {R : Mat3} (hR : Orth R) (cand : List (Nat × Int × V3 ℝ × ℝ)) (y : V3 ℝ) :
+    pickZRaw (cand.map (candMap R)) (rot R y) = (pickZRaw cand y).map (rot R) := by
+  unfold pickZRaw
   have htag : ((cand.map (candMap R)).zipIdx.map
         (fun p => (Scalar.truncNat (Scalar.div p.1.2.2.2 Scalar.zPrec), p.1.1, p.1.2.1, p.2)))
       = (cand.zipIdx.map (fun p => (Scalar.truncNat (Scalar.div p.1.2.2.2 Scalar.zPrec), p.1.1, p.1.2.1, p.2))) := by
@@ -195,6 +195,43 @@ theorem pickZ_rot {R : Mat3} (hR : Orth R) (cand : List (Nat × Int × V3 ℝ ×
     rw [getD_candMap, ← projectToPlane_rot hR]
     rfl
   · rfl
+
+/-- `pickZ` is `pickZRaw` followed by the guard against a (numerically) vanishing projection -/
+theorem pickZ_eq_raw {α : Type} [Scalar α] (cand : List (Nat × Int × V3 α × α)) (y : V3 α) :
+    pickZ cand y = (pickZRaw cand y).bind (fun z => if Scalar.lt (V3.norm z) Scalar.eps then none else some z) := by
+  unfold pickZ
+  cases pickZRaw cand y <;> rfl
+
+/-- the guard of `pickZ` looks at the length of the projection only: it is invariant under every
+orthogonal map (proper or not) -/
+theorem pickZ_rot {R : Mat3} (hR : Orth R) (cand : List (Nat × Int × V3 ℝ × ℝ)) (y : V3 ℝ) :
+    pickZ (cand.map (candMap R)) (rot R y) = (pickZ cand y).map (rot R) := by
+  rw [pickZ_eq_raw, pickZ_eq_raw, pickZRaw_rot hR]
+  cases pickZRaw cand y with
+  | none => rfl
+  | some z =>
+    simp only [Option.map_some, Option.bind_some, norm_rot hR]
+    split <;> rfl
+
+theorem firstUnique_singleton {κ : Type} [DecidableEq κ] (k : κ) : firstUnique [k] = some 0 := by
+  simp [firstUnique, List.zipIdx]
+
+/-- a single candidate is selected -/
+theorem pickZRaw_singleton (c : Nat × Int × V3 ℝ × ℝ) (y : V3 ℝ) :
+    pickZRaw [c] y = some (V3.projectToPlane c.2.2.1 y) := by
+  unfold pickZRaw
+  have hs : sortByLt lt4 ([c].zipIdx.map
+        (fun p => (Scalar.truncNat (Scalar.div p.1.2.2.2 Scalar.zPrec), p.1.1, p.1.2.1, p.2)))
+      = [(Scalar.truncNat (Scalar.div c.2.2.2 Scalar.zPrec), c.1, c.2.1, 0)] := rfl
+  simp only [hs, List.map_cons, List.map_nil, firstUnique_singleton]
+  rfl
+
+/-- … and defines the z axis unless its projection is shorter than `EPS` -/
+theorem pickZ_singleton (c : Nat × Int × V3 ℝ × ℝ) (y : V3 ℝ) :
+    pickZ [c] y = if Scalar.lt (V3.norm (V3.projectToPlane c.2.2.1 y)) Scalar.eps then none
+      else some (V3.projectToPlane c.2.2.1 y) := by
+  rw [pickZ_eq_raw, pickZRaw_singleton]
+  rfl
 
 
 def nbrMap (R : Mat3) (t : Nat × Int × V3 ℝ) : Nat × Int × V3 ℝ := (t.1, t.2.1, rot R t.2.2)
